@@ -6,6 +6,7 @@ use std::env;
 use std::fs;
 
 mod client;
+mod queue;
 mod sinks;
 mod writer;
 
@@ -47,6 +48,7 @@ fn main() {
             "writer" => writer::replay(&sc),
             "client" => client::replay(&sc),
             "sink" => sinks::replay(&sc),
+            "queue" => queue::replay(&sc),
             _ => json!({"error": format!("unknown scenario kind {}", kind)}),
         };
         outs.push(out);
